@@ -1,6 +1,6 @@
 #!/bin/sh
 # tools/seedwt.sh <seed-dir> [Cxx ...]: confirm a seeded change (tools/verify_seed.sh) and run the checks against it in the scratch worktree
-# /tmp/wt/verify via PYVC_REPO (never touches /repo).  "FALSE ALARMS:" in the output of refactortest.py reads "caught by" here.
-D=$(cd "$1" && pwd); shift
-"$(dirname "$0")/verify_seed.sh" "$D"
-DEVTREE=/tmp/wt/verify python3 "$(dirname "$0")/refactortest.py" "$D/patch.diff" "$@" | sed 's/^FALSE ALARMS:/CAUGHT by:/'
+# $SEED_WT (default /tmp/wt/verify) via PYVC_REPO (never touches /repo).
+D=$(cd "$1" && pwd); shift; W=${SEED_WT:-/tmp/wt/verify}
+SEED_WT=$W "$(dirname "$0")/verify_seed.sh" "$D"
+DEVTREE=$W python3 "$(dirname "$0")/refactortest.py" "$D/patch.diff" "$@" | sed 's/^FALSE ALARMS:/CAUGHT by:/'
